@@ -45,13 +45,25 @@ def one(d):
                     break
             else:
                 still.append(t)
+        # what still fails: is it the change or the machine?  the same test alone on the unchanged tree
+        env_too = []
+        if still:
+            sh(["git", "apply", "-R", os.path.join(d, "patch.diff")], wt)
+            for t in still:
+                bad = 0
+                for k in range(2):
+                    rc3, o3 = sh(["go", "test", "-mod=mod", "-vet=off", "-count=1", "-timeout", "10m", "-run", "^%s$" % t, "./..."], wt)
+                    bad += 1 if re.search(r"^--- FAIL: ", o3, re.M) else 0
+                if bad:
+                    env_too.append(t)
+            sh(["git", "apply", os.path.join(d, "patch.diff")], wt)
         build_failed = "[build failed]" in o or "[setup failed]" in o
         mp = os.path.join(d, "meta.json")
         meta = json.load(open(mp))
         meta["suite"] = {"cmd": "go test -mod=mod -vet=off -count=1 -timeout 25m ./... (in a private network namespace)", "failed_first_run": failed,
-                         "still_failing_when_rerun_alone": still, "build_failed": build_failed, "wall_s": round(time.time() - t0)}
+                         "still_failing_when_rerun_alone": still, "of_those_also_failing_alone_on_the_unchanged_tree": env_too, "build_failed": build_failed, "wall_s": round(time.time() - t0)}
         json.dump(meta, open(mp, "w"), indent=1)
-        print(os.path.basename(d), "suite: first-run failures", failed, "still failing alone", still, "build_failed", build_failed)
+        print(os.path.basename(d), "suite: first-run failures", failed, "still failing alone", still, "also on unchanged", env_too, "build_failed", build_failed)
     finally:
         subprocess.run(["git", "-C", "/repo", "worktree", "remove", "--force", wt])
 
